@@ -699,6 +699,24 @@ def variant_handling_rule(cx, rep, F_, rid):
                     seen.add(tg)
                     out |= ctor_variants(F_.hir[tg]["body"], crate, depth + 1, seen)
         return out
+
+    def answer_patterns(g, crate, depth=0, seen=None):
+        """answer variants matched by a pattern in g - or in a local function g hands an answer to (a parameter of the
+        answer type): benign b91 moved the `match` over the per-tag result of union and diff into the shared helper
+        `record_combined_subtype(&SubType, &mut all, &mut subtypes)`.  Functions that do not take an answer are not
+        entered, so an operation that keeps `Proper` only is not excused by a pattern somewhere below it."""
+        seen = seen if seen is not None else {g}
+        body = F_.hir[g]["body"]
+        out = {(p_.get("def") or "").rsplit("::", 1)[-1] for p_ in walk(body) if p_["k"] in ("P.TupleStruct", "P.Struct") and re.search(r"SubType::(True|False|Proper)$", p_.get("def") or "")}
+        for x in walk(body):
+            if x["k"] not in ("Call", "MethodCall") or depth >= 2:
+                continue
+            tg = F_._callee_gid(crate, (x.get("callee") if x["k"] == "Call" else (x.get("resolved") or x.get("callee"))) or "")
+            hf = F_.fns.get(tg)
+            if tg in F_.hir and tg not in seen and hf is not None and any(re.search(r"(^|[<: &])SubType\b", t_ or "") for t_ in (hf.inputs or [])):
+                seen.add(tg)
+                out |= answer_patterns(tg, crate, depth + 1, seen)
+        return out
     for op in ("intersect", "union", "diff"):
         prod = next((g for g in F_.hir if g.endswith("ProperSubtypeOps>::%s" % op)), None)
         cons = next((g for g in F_.hir if g.endswith("SemTypeOps>::%s" % op)), None)
@@ -714,7 +732,7 @@ def variant_handling_rule(cx, rep, F_, rid):
                 vs = {(p_.get("def") or "").rsplit("::", 1)[-1] for p_ in walk(a["pat"]) if p_["k"] in ("P.TupleStruct", "P.Struct") and "ProperSubtype::" in (p_.get("def") or "")}
                 if vs & diagram:
                     produced |= ctor_variants(a["body"], crate)
-        handled = {(p_.get("def") or "").rsplit("::", 1)[-1] for p_ in walk(F_.hir[cons]["body"]) if p_["k"] in ("P.TupleStruct", "P.Struct") and re.search(r"SubType::(True|False|Proper)$", p_.get("def") or "")}
+        handled = answer_patterns(cons, crate)
         n += 1
         lost = sorted(produced - {"False"} - handled)
         rep.ob(rid, "%s/handles-every-answer" % op, not lost,
